@@ -167,6 +167,20 @@ def run(ctx, ck) -> None:
         for nargs, c in sorted(got.items()):
             ck.expect('V3', c is not None and len(table.fields(c)) == nargs, fs, f'{nargs} components -> {c.name if c else "?"}', f'from_stokes builds {c.name if c else "?"} from {nargs} components', instance=f'from_stokes {nargs}')
         ck.floor('V3', len(got), 4, 'from_stokes arities')
+        npromo = 0
+        for p in function_paths(fs):
+            if p.exit != 'return':
+                continue
+            npromo += 1
+            promoted = any(isinstance(st, ast.Assign) and term(st.value) == ('call', ('var', 'as_promoted_dtype'), (('var', 'args'),), ()) and ast.unparse(st.targets[0]) == 'args' for st in p.stmts())
+            last_args_def = None
+            for st in p.stmts():
+                if isinstance(st, ast.Assign) and ast.unparse(st.targets[0]) == 'args':
+                    last_args_def = st
+            is_last = last_args_def is not None and term(last_args_def.value) == ('call', ('var', 'as_promoted_dtype'), (('var', 'args'),), ())
+            kw_path = any(pol and ast.unparse(e) == 'keywords' for e, pol in p.conds())
+            ck.expect('V3', promoted and is_last, fs, f'components are promoted to a common dtype on this path ({"keyword" if kw_path else "positional"} form) before the container is built',
+                      f'from_stokes builds the container on a path ({"keyword" if kw_path else "positional"} form) where the components were not passed through as_promoted_dtype last: components of different dtypes stay unpromoted', instance=f'from_stokes promotion path {npromo}')
         ck.expect('V3', any(p.exit == 'raise' for p in function_paths(fs)), fs, 'other arities raise', 'from_stokes no longer rejects other arities', instance='from_stokes arity', nontrivial=False)
 
     # ------------------------------------------------------------------ V4 from_iquv
